@@ -46,6 +46,7 @@ import (
 
 	v1 "github.com/crossplane/crossplane/apis/apiextensions/v1"
 	"github.com/crossplane/crossplane/apis/apiextensions/v1beta1"
+	pkgmetav1 "github.com/crossplane/crossplane/apis/pkg/meta/v1"
 	pkgv1 "github.com/crossplane/crossplane/apis/pkg/v1"
 	pkgv1beta1 "github.com/crossplane/crossplane/apis/pkg/v1beta1"
 	"github.com/crossplane/crossplane/internal/controller/apiextensions/claim"
@@ -68,6 +69,10 @@ type c08Owner struct {
 	// Twin (with Idx -1): the reference names the XRD of this world (same apiVersion, kind
 	// and name) but carries the UID of an earlier incarnation that no longer exists.
 	Twin bool `json:"twin,omitempty"`
+	// Stale (with Idx -1, on a Usage): the reference names the Usage's using resource
+	// (apiVersion, kind and name of spec.by) but carries the UID of an earlier incarnation of
+	// it (the using resource was deleted and re-created under the same name).
+	Stale bool `json:"stale,omitempty"`
 }
 
 type c08Obj struct {
@@ -90,10 +95,14 @@ type c08Obj struct {
 	// res2 = the same Kind in another API group, res3 = another Kind in the same group.
 	RefKind string `json:"refKind,omitempty"`
 	OfKind  string `json:"ofKind,omitempty"`
+	// claims: spec.resourceRef's apiVersion / kind: "" = the XR kind the claim controller was
+	// started for, "old" = another VERSION of it (the XRD's referenceable version changed after
+	// the reference was written), "other" = another group and kind. The XR is looked up by name.
+	RefVer string `json:"refVer,omitempty"`
 }
 
 type c08Step struct {
-	Op   string `json:"op"`             // spawn step del gc unfin edit
+	Op   string `json:"op"`             // spawn step del gc unfin edit live
 	C    string `json:"c,omitempty"`    // spawn: claim xr defined offered rev usage
 	Kind string `json:"kind,omitempty"` // del/unfin/edit
 	Name string `json:"name,omitempty"` // spawn/del/unfin/edit
@@ -260,6 +269,9 @@ func c08Build(idx int, o c08Obj, all []c08Obj) *unstructured.Unstructured {
 				r["apiVersion"], r["kind"], r["name"] = og.GroupVersion().String(), og.Kind, on
 			} else if ow.Twin {
 				r["apiVersion"], r["kind"], r["name"] = c08XRDGVK.GroupVersion().String(), c08XRDGVK.Kind, c08XRDName
+			} else if ow.Stale && o.Kind == "usage" && o.Ref != "" {
+				bg := c08GVK(c08ResKind(o.RefKind))
+				r["apiVersion"], r["kind"], r["name"] = bg.GroupVersion().String(), bg.Kind, o.Ref
 			}
 			if ow.Ctrl {
 				r["controller"] = true
@@ -281,7 +293,14 @@ func c08Build(idx int, o c08Obj, all []c08Obj) *unstructured.Unstructured {
 	switch o.Kind {
 	case "claim":
 		if o.Ref != "" {
-			spec["resourceRef"] = map[string]any{"apiVersion": c08XRGVK.GroupVersion().String(), "kind": c08XRGVK.Kind, "name": o.Ref}
+			av, k := c08XRGVK.GroupVersion().String(), c08XRGVK.Kind
+			switch o.RefVer {
+			case "old":
+				av = c08Group + "/v1alpha1"
+			case "other":
+				av, k = "other."+c08Group+"/v1", "Res"
+			}
+			spec["resourceRef"] = map[string]any{"apiVersion": av, "kind": k, "name": o.Ref}
 		}
 		if o.Flag {
 			spec["compositeDeletePolicy"] = "Foreground"
@@ -355,6 +374,10 @@ func c08Build(idx int, o c08Obj, all []c08Obj) *unstructured.Unstructured {
 	if o.Kind != "lock" && len(spec) > 0 {
 		m["spec"] = spec
 	}
+	if o.Kind == "crd" && o.Flag {
+		// the API server has established the CRD
+		m["status"] = map[string]any{"conditions": []any{map[string]any{"type": "Established", "status": "True", "reason": "InitialNamesAccepted"}}}
+	}
 	return &unstructured.Unstructured{Object: m}
 }
 
@@ -371,6 +394,8 @@ type c08View struct {
 	RefKind    string // usages: kind of the using resource (res res2 res3)
 	OfKind     string // usages: kind of the used resource
 	Flag       bool
+	SkipDeps   bool // revisions: spec.skipDependencyResolution
+	Owners     int  // number of owner references
 	CtrlUID    string
 	Conds      []string
 }
@@ -387,6 +412,10 @@ func (v c08View) repr() string {
 	}
 	if v.Inuse {
 		r += " inuse"
+	}
+	if (v.Kind == "usage" || v.Kind == "crd") && v.Owners > 0 {
+		// owner references of the objects whose owners the modelled code writes
+		r += fmt.Sprintf(" owners=%d", v.Owners)
 	}
 	if len(v.Conds) > 0 {
 		r += " conds=" + strings.Join(v.Conds, ",")
@@ -409,6 +438,7 @@ func c08ViewOf(u *unstructured.Unstructured) c08View {
 	v.Del = u.GetDeletionTimestamp() != nil
 	v.Fins = append([]string{}, u.GetFinalizers()...)
 	v.Inuse = u.GetLabels()["crossplane.io/in-use"] == "true"
+	v.Owners = len(u.GetOwnerReferences())
 	for _, r := range u.GetOwnerReferences() {
 		if r.Controller != nil && *r.Controller {
 			v.CtrlUID = string(r.UID)
@@ -420,6 +450,11 @@ func c08ViewOf(u *unstructured.Unstructured) c08View {
 		v.Ref, _, _ = unstructured.NestedString(u.Object, "spec", "resourceRef", "name")
 		p, _, _ := unstructured.NestedString(u.Object, "spec", "compositeDeletePolicy")
 		v.Flag = p == "Foreground"
+	case "xr":
+		if n, _, _ := unstructured.NestedString(u.Object, "spec", "claimRef", "name"); n != "" {
+			ns, _, _ := unstructured.NestedString(u.Object, "spec", "claimRef", "namespace")
+			v.Ref = ns + "/" + n
+		}
 	case "xrd":
 		v.Ref, v.Of = c08XRCRD, c08ClaimCRD
 	case "lock":
@@ -437,7 +472,13 @@ func c08ViewOf(u *unstructured.Unstructured) c08View {
 		v.RefKind = c08RefKind(u, "by")
 		v.Flag = u.GetLabels()["crossplane.io/composite"] != ""
 	}
+	if kind == "rev" {
+		v.SkipDeps, _, _ = unstructured.NestedBool(u.Object, "spec", "skipDependencyResolution")
+	}
 	cs, _, _ := unstructured.NestedSlice(u.Object, "status", "conditions")
+	if kind == "crd" {
+		cs = nil // the API server's own conditions (Established): not written by these reconcilers
+	}
 	for _, c := range cs {
 		if cm, ok := c.(map[string]any); ok {
 			t, _ := cm["type"].(string)
@@ -832,8 +873,24 @@ type c08Engine struct {
 	w *c08World
 }
 
+// Start: the REAL engine.Start with the options the reconciler built, except that the
+// controller it creates is the fake one (ground truth for "running": its context).
 func (e *c08Engine) Start(name string, o ...engine.ControllerOption) error {
-	return e.w.cur.nonStore("start:"+name, func() error { return e.w.eng.Start(name, o...) })
+	w := e.w
+	return w.cur.nonStore("start:"+name, func() error {
+		if w.eng.IsRunning(name) {
+			return w.eng.Start(name, o...)
+		}
+		c := &c08Ctrl{started: make(chan struct{}), kill: w.kill}
+		err := w.eng.Start(name, append(o, engine.WithNewControllerFn(func(string, manager.Manager, kcontroller.Options) (kcontroller.Controller, error) {
+			return c, nil
+		}))...)
+		if err == nil {
+			w.ctrls[name] = c
+			<-c.started
+		}
+		return err
+	})
 }
 
 // Stop: under an injected failure the REAL engine.Stop runs while the informers refuse
@@ -1043,6 +1100,9 @@ func c08NewWorld(s c08Scn) *c08World {
 	for i, o := range s.Objs {
 		st.Seed(c08Build(i, o, s.Objs))
 	}
+	// objects created during the run (by live reconciles) get UIDs no seeded object and no
+	// dangling owner reference ("uid-999") carries
+	st.uid = 2000
 	w := &c08World{st: st, seen: map[string]bool{}, created: map[string]bool{}}
 	for _, x := range s.Steps {
 		if x.At > 0 {
@@ -1101,11 +1161,60 @@ func (w *c08World) reconcileFn(ctl, name string) func() (reconcile.Result, error
 	return func() (reconcile.Result, error) { return r.Reconcile(context.Background(), req) }
 }
 
+// resolveFn is the part of a live revision's reconcile that concerns the Lock: the REAL
+// PackageDependencyManager.Resolve (a package without dependencies) for revision `name`.
+func (w *c08World) resolveFn(name string) func() (reconcile.Result, error) {
+	cl := &c08Client{Client: w.st, w: w}
+	return func() (reconcile.Result, error) {
+		u := w.st.Peek(c08RevGVK.GroupKind(), "", name)
+		if u == nil {
+			return reconcile.Result{}, nil
+		}
+		pr := &pkgv1.ProviderRevision{}
+		if err := runtime.DefaultUnstructuredConverter.FromUnstructured(u.Object, pr); err != nil {
+			return reconcile.Result{}, err
+		}
+		m := revision.NewPackageDependencyManager(cl, dag.NewMapDag, pkgv1.ProviderGroupVersionKind)
+		_, _, _, err := m.Resolve(context.Background(), &pkgmetav1.Provider{}, pr)
+		return reconcile.Result{}, err
+	}
+}
+
+// liveAtomic runs ONE whole reconcile of a live (not deleted) object on the real code,
+// every call answered by the live store, no other step in between (schedule op "live").
+// The model executes the abstract creating steps this amounts to (Xp.C08.liveActs).
+func (w *c08World) liveAtomic(ctl, name string) {
+	t := &c08Thread{id: -1, w: w, ctl: ctl, name: name, ready: make(chan struct{}), resume: make(chan Outcome), done: make(chan string, 1)}
+	fn := w.reconcileFn(ctl, name)
+	if ctl == "rev" {
+		fn = w.resolveFn(name)
+	}
+	w.cur = t
+	w.launch(t, fn)
+	w.wait(t)
+	for !t.fin {
+		t.errCls, t.lag, t.miss = "", nil, false
+		w.cur = t
+		t.resume <- OK
+		w.wait(t)
+		w.st.Plan = nil
+	}
+	if strings.HasPrefix(t.res, "panic") {
+		w.mon("C08:panic", "live reconcile of "+ctl+" "+name+": "+t.res)
+	}
+}
+
 func (w *c08World) spawn(ctl, name string) *c08Thread {
 	t := &c08Thread{id: len(w.threads), w: w, ctl: ctl, name: name, ready: make(chan struct{}), resume: make(chan Outcome), done: make(chan string, 1)}
 	w.threads = append(w.threads, t)
 	fn := w.reconcileFn(ctl, name)
 	w.cur = t
+	w.launch(t, fn)
+	w.wait(t)
+	return t
+}
+
+func (w *c08World) launch(t *c08Thread, fn func() (reconcile.Result, error)) {
 	go func() {
 		res := "ok"
 		if p := Guard(func() {
@@ -1121,8 +1230,6 @@ func (w *c08World) spawn(ctl, name string) *c08Thread {
 		}
 		t.done <- res
 	}()
-	w.wait(t)
-	return t
 }
 
 // wait blocks until the thread parks at its next call or ends.
@@ -1197,6 +1304,8 @@ func (w *c08World) step(s c08Step, running []string) c08StepObs {
 	switch s.Op {
 	case "spawn":
 		w.spawn(s.C, s.Name)
+	case "live":
+		w.liveAtomic(s.C, s.Name)
 	case "step":
 		if s.T < 0 || s.T >= len(w.threads) || w.threads[s.T].fin {
 			break
@@ -1378,7 +1487,11 @@ func (w *c08World) monitor(t *c08Thread, pre, post c08Snap, crash bool, call str
 		case "claim":
 			if lost(v, claim.VerifC08Finalizer) && v.Ref != "" {
 				if x, ok := pre.objs["xr/"+v.Ref]; ok {
-					if !x.Del && t.missed["xr/"+v.Ref] {
+					if w.created[x.key()] && x.Ref != "" && x.Ref != v.Name {
+						// not this claim's XR: the XR the claim named is gone and ANOTHER claim's live
+						// reconcile has since created an XR of that name, bound to itself (the claim
+						// reconciler never deletes or waits for an XR bound to another claim)
+					} else if !x.Del && t.missed["xr/"+v.Ref] {
 						// unchanged code does this when the XR is missing from the informer cache: recorded finding
 						w.mon("C08:claim-finalized-xr-missing-from-cache", fmt.Sprintf("%s: claim %s lost its finalizer while its XR %s exists and is not being deleted: the reconcile's cached read did not find the XR (created so recently that the informer had not seen it); the XR is orphaned", call, v.Name, v.Ref))
 					} else if !x.Del {
